@@ -125,6 +125,8 @@ func newPlan(quick bool) *plan {
 			full = append(full, wd{w, d})
 		}
 	}
+	// a depth limit beyond the depth of every table (what lies four and five levels down is laid out too)
+	full = append(full, wd{80, 6}, wd{200, 6})
 	p.prettySm, p.prettyFull = mk([]wd{{80, 3}, {8, 1}, {20, 2}}), mk(full)
 	// every vector again with the float verb set explicitly
 	withVerb := func(vs []optVec) []optVec {
